@@ -67,10 +67,26 @@ def run_plan(plan, props, want_history=False):
         'signature': abstract_signature(world),
         'nontrivial': is_nontrivial(world),
         'frames': len([1 for e in world.history if e['k'] == 'wire']),
+        'connected_iter': next((e['it'] for e in world.history if e['k'] == 'act' and e.get('what') == 'connected'), None),
+        'spans': _interaction_spans(world),
     }
     if want_history:
         res['history'] = world.history
     return res
+
+
+def _interaction_spans(world):
+    """iid -> (iteration of the request action, iteration of the last event of that interaction)."""
+    spans = {}
+    for e in world.history:
+        iid = e.get('iid')
+        if iid is None or e['k'] == 'mark':
+            continue
+        if e['k'] == 'act' and e.get('what') == 'request':
+            spans[iid] = [e['it'], e['it']]
+        elif iid in spans and e['k'] in ('sub', 'fut', 'pub', 'hnd'):
+            spans[iid][1] = max(spans[iid][1], e['it'])
+    return spans
 
 
 def abstract_signature(world):
@@ -108,14 +124,37 @@ def is_nontrivial(world):
 
 def _worker(args):
     prop, jobs, base_seed, keep = args
-    from . import checks
+    from . import checks, findings
     faulthandler.enable()
+    known = findings.load()
     agg = {'runs': 0, 'incomplete': 0, 'iters': 0, 'vtime': 0.0, 'frames': 0, 'faults': Counter(), 'probes': Counter(),
            'stats': Counter(), 'sigs': set(), 'violations': [], 'harness': [], 'by_profile': Counter(), 'samples': [],
-           'viol_counts': Counter()}
-    for profile, index, extra in jobs:
+           'viol_counts': Counter(), 'sweep_bases': 0, 'sweep_points_total': 0, 'sweep_points_run': 0,
+           'sweep_bases_exhaustive': 0}
+    def run_for_expand(p):
+        return run_plan(p, [prop])
+
+    def plan_iter():
+        for profile, index, extra in jobs:
+            try:
+                for plan in checks.expand(prop, profile, base_seed, index, extra, run_for_expand):
+                    yield profile, index, plan
+            except _Alarm:
+                agg['harness'].append({'profile': profile, 'index': index, 'error': 'wall-clock hang guard fired (base run)'})
+            except HarnessError as e:
+                agg['harness'].append({'profile': profile, 'index': index, 'error': 'HarnessError: %s' % e})
+            except Exception:
+                agg['harness'].append({'profile': profile, 'index': index, 'error': traceback.format_exc()[-1500:]})
+
+    for profile, index, plan in plan_iter():
+        if isinstance(plan, tuple) and plan[0] == 'meta':
+            agg['sweep_bases'] += 1
+            agg['sweep_points_total'] += plan[1]['points_total']
+            agg['sweep_points_run'] += plan[1]['points_run']
+            if plan[1]['points_total'] == plan[1]['points_run']:
+                agg['sweep_bases_exhaustive'] += 1
+            continue
         try:
-            plan = checks.make_plan(prop, profile, base_seed, index, extra)
             res = run_plan(plan, [prop])
         except _Alarm:
             agg['harness'].append({'profile': profile, 'index': index, 'error': 'wall-clock hang guard fired'})
@@ -143,14 +182,18 @@ def _worker(args):
         if len(agg['samples']) < 1:
             agg['samples'].append({'profile': profile, 'index': index, 'plan': plan})
         seen = set()
-        for v in res['violations']:
+        # unknown violations first so that a known finding of the same class cannot hide them
+        ordered = sorted(res['violations'], key=lambda x: findings.match(known, prop, x.cls, x.facts) is not None)
+        for v in ordered:
             if v.prop != prop or v.cls in seen:
                 continue
             seen.add(v.cls)
             agg['viol_counts'][v.cls] += 1
-            if sum(1 for x in agg['violations'] if x['class'] == v.cls) < keep:
+            kf = findings.match(known, prop, v.cls, v.facts)
+            tag = kf['id'] if kf else None
+            if sum(1 for x in agg['violations'] if x['class'] == v.cls and x['known'] == tag) < keep:
                 agg['violations'].append({'class': v.cls, 'facts': v.facts, 'message': v.msg, 'profile': profile,
-                                          'index': index, 'plan': plan, 'iters': res['iters']})
+                                          'index': index, 'plan': plan, 'iters': res['iters'], 'known': tag})
     agg['faults'] = dict(agg['faults'])
     agg['probes'] = dict(agg['probes'])
     agg['stats'] = dict(agg['stats'])
@@ -169,7 +212,8 @@ def run_jobs(prop, jobs, base_seed, workers=None, keep=3, wall_cap=None):
     chunks = [c for c in chunks if c]
     total = {'runs': 0, 'incomplete': 0, 'iters': 0, 'vtime': 0.0, 'frames': 0, 'faults': Counter(), 'probes': Counter(),
              'stats': Counter(), 'sigs': set(), 'violations': [], 'harness': [], 'by_profile': Counter(), 'samples': [],
-             'viol_counts': Counter(), 'timed_out': False}
+             'viol_counts': Counter(), 'timed_out': False, 'sweep_bases': 0, 'sweep_points_total': 0,
+             'sweep_points_run': 0, 'sweep_bases_exhaustive': 0}
     t0 = time.time()
     if workers == 1:
         results = [_worker((prop, c, base_seed, keep)) for c in chunks]
@@ -194,7 +238,8 @@ def run_jobs(prop, jobs, base_seed, workers=None, keep=3, wall_cap=None):
                     except Exception:
                         pass
     for r in results:
-        for k in ('runs', 'incomplete', 'iters', 'vtime', 'frames'):
+        for k in ('runs', 'incomplete', 'iters', 'vtime', 'frames', 'sweep_bases', 'sweep_points_total', 'sweep_points_run',
+                  'sweep_bases_exhaustive'):
             total[k] += r[k]
         for k in ('faults', 'probes', 'stats', 'by_profile', 'viol_counts'):
             total[k].update(r[k])
